@@ -141,6 +141,8 @@ func (c *ChangesTable) Open() (sqlite.VirtualCursor, error) {
 	return &ChangesCursor{
 		module:     c.module,
 		t:          c.table,
+		from:       from,
+		to:         to,
 		diffCursor: dc,
 	}, nil
 }
@@ -158,7 +160,9 @@ type ChangesCursor struct {
 	t          *s3db.VirtualTable
 	currentKey *s3db.Key
 	currentRow *v1proto.Row
+	from, to   *s3db.KV
 	diffCursor *kv.DiffCursor
+	started    bool
 	eof        bool
 }
 
@@ -203,6 +207,17 @@ func (c *ChangesCursor) Column(ctx *sqlite.VirtualTableContext, i int) error {
 }
 
 func (c *ChangesCursor) Filter(_ int, idxStr string, values ...sqlite.Value) error {
+	if c.started {
+		// SQLite filters a cursor again for every row of an outer loop; each
+		// time the answer starts from the beginning
+		dc, err := c.to.Root.StartDiff(c.module.sc.ctx, c.from.Root)
+		if err != nil {
+			return toSqlite(err)
+		}
+		c.diffCursor = dc
+		c.eof = false
+	}
+	c.started = true
 	return toSqlite(c.Next())
 }
 func (c *ChangesCursor) Rowid() (int64, error) {
